@@ -282,7 +282,7 @@ def build_scenario(spec, wd):
         for i in range(len(sc.variants[c])):
             wrong = [s for s in samples if rng.random() < spec["gt_error"]]
             if rng.random() < spec.get("multi_change", 0.0):
-                wrong = list(set(wrong) | set(rng.sample(samples, min(len(samples), rng.randint(2, 3)))))
+                wrong = sorted(set(wrong) | set(rng.sample(samples, min(len(samples), rng.randint(2, 3)))))   # sorted: no hash-seed dependence
             if c in interleaved:
                 wrong = [s for s in wrong if s not in family_members]
             for s in wrong:
